@@ -154,7 +154,14 @@ func c12Field(r *Run, kind, where string, t ast.Type, p map[string]any, replay m
 			}
 		}
 		if t.Scalar.Value != nil {
-			if cv, ok := p["const"]; ok && !numEq(cv, t.Scalar.Value) {
+			cv, ok := p["const"]
+			if ev, isEnum := p["enum"].([]any); !ok && isEnum && len(ev) == 1 {
+				cv, ok = ev[0], true // a one-member enum says the same
+			}
+			switch {
+			case !ok:
+				r.Violation(kind+"/constant-dropped/"+tag, fmt.Sprintf("%s: the IR holds the constant %v, the emitted definition has no const (%s)", where, t.Scalar.Value, short(p)), replay)
+			case !numEq(cv, t.Scalar.Value):
 				r.Violation(kind+"/constant-altered/"+tag, fmt.Sprintf("%s: const %s, IR says %v", where, short(cv), t.Scalar.Value), replay)
 			}
 		}
